@@ -32,6 +32,9 @@ def gen_value(rng, kind):
         return rng.choice([0.5, 1.0, 2.25, 1e-3, 100.0, 3.14])
     if kind == "str":
         return rng.choice(["a", "b", "low", "high", "v1", "x.y", "A_B"])
+    if kind == "dots":
+        # distinct values made of characters the path sanitiser keeps; they differ in their dot runs
+        return rng.choice([".5", "5", "..5", "0.5", "0..5", "5.", "5..", "0...5"])
     return rng.choice(["a b", "+1", "1", "p/q", "pq", "é", "..", "a,b", "x;y", "q'r"])
 
 
@@ -44,8 +47,10 @@ def gen_params(rng, adversarial):
     long_labels = n >= 3 and rng.random() < 0.25
     params = {}
     for k in names:
-        kind = rng.choice(["int", "float", "str", "str"] + (["adv"] if adversarial else []))
+        kind = rng.choice(["int", "float", "str", "str", "dots"] + (["adv"] if adversarial else []))
         vals = [gen_value(rng, kind) for _ in range(rows)]
+        if kind == "dots":
+            vals = rng.sample([".5", "5", "..5", "0.5", "0..5", "5.", "5..", "0...5"], rows)
         if rng.random() < 0.2:
             vals = [vals[0]] * rows
         r = rng.random()
